@@ -135,7 +135,8 @@ def _run_api(api, par, lens, buf, stop_after, fail_at, seed, fn_fail=0, main_las
     sched.set_active(sch)
     out = dict(values=[], end=None, alive=None)
     try:
-      inputs = [qreplay.ItemIter(f'i{k}', n, fail_at if (fail_at and k == 0 and fail_at <= n) else 0, returns=False)
+      # the inputs of the two-stage API return their names: every generator's return value is collected (once)
+      inputs = [qreplay.ItemIter(f'i{k}', n, fail_at if (fail_at and k == 0 and fail_at <= n) else 0, returns=(api == 'piter'))
                 for k, n in enumerate(lens)]
       expect_fail = bool(fail_at and lens and fail_at <= lens[0])
 
@@ -174,8 +175,8 @@ def _run_api(api, par, lens, buf, stop_after, fail_at, seed, fn_fail=0, main_las
                     raise qreplay.ProducerError(f'mapped function fails at its element {k}')
                   yield fn(x)
               return gen()
-            it = iter(iter_utils.piter(mapped, input_iterators=inputs, max_parallism=par, buffer_size=buf,
-                                       thread_pool=pool))
+            out['queue'] = iter_utils.piter(mapped, input_iterators=inputs, max_parallism=par, buffer_size=buf, thread_pool=pool)
+            it = iter(out['queue'])
             mi = None
           else:
             mi = iter_utils.MultiplexIterator(data_sources=inputs, iter_fn=lambda xs: map(fn, xs), parallism=par)
@@ -223,6 +224,12 @@ def _run_api(api, par, lens, buf, stop_after, fail_at, seed, fn_fail=0, main_las
                                                        and v[1] % 10 == 0 and 1 <= v[1] // 10 <= lens[int(v[0][1:])])]
   if phantom:
     return (f'sweep:phantom-or-duplicate:{api}', f'{sorted(phantom)} [{cfg} lens={lens}]')
+  if api == 'piter' and out['end'] == 'exhausted' and not expect_fail and not fn_fail and UNBOUNDED not in lens and out.get('queue') is not None:
+    rets = collections.Counter(out['queue'].returned)
+    want_rets = collections.Counter(f'i{k}' for k in range(len(lens)))
+    if rets != want_rets:
+      what = 'duplicated' if all(rets[k] >= v for k, v in want_rets.items()) else 'lost'
+      return (f'sweep:return-values-{what}:piter', f'the inputs return {sorted(want_rets)}; the queue collected {sorted(rets.elements())} [{cfg} lens={lens} buf={buf}]')
   if expect_fail and out['end'] == 'exhausted':
     return (f'sweep:failure-swallowed:{api}', f'input 0 fails at {fail_at} but iteration ended cleanly [{cfg} lens={lens}]')
   if out['alive']:
